@@ -4,7 +4,7 @@ from common import Model, Impl
 PROP = "C07"
 LEVEL = "proof"
 NAMES = {"0": "(finished)", "1": "os.open", "2": "f.write", "3": "f.flush", "4": "os.fsync", "5": "f.close", "6": "os.replace", "7": "f.close", "8": "os.remove", "9": "open"}
-CALLERS = ["index-write-new", "index-rewrite", "config-write", "ref-set-loose", "ref-set-packed", "ref-add-new", "ref-remove-loose",
+CALLERS = ["locked-index", "index-write-new", "index-rewrite", "config-write", "ref-set-loose", "ref-set-packed", "ref-add-new", "ref-remove-loose",
            "ref-remove-packed", "symref-set", "pack-refs", "put-named-file", "shallow-update", "add-alternate", "commit-graph"]
 
 
@@ -15,7 +15,7 @@ def run(rep):
                          "os.remove / open; every schedule (all of them for 2 actors, bounded pre-emptions for 3) x at most one injected "
                          "fault (ENOSPC or KeyboardInterrupt) at any call; per run the call trace, each actor's outcome, the final content "
                          "and the lock file are compared with the model run on the same schedule; mutual exclusion is read off the real "
-                         "trace.  Callers: 14 dulwich routines that write through GitFile, a fault at every scheduling point of each: "
+                         "trace.  Callers: 15 dulwich routines that write through GitFile, a fault at every scheduling point of each: "
                          "no .lock file may remain and every file is old or new.  distinct non-trivial = distinct (actors, schedule)")
     rep.trusted += ["the interposition layer harness/sched.py (patches os.* and builtins.open inside the child interpreter)",
                     "the kernel's O_EXCL and rename atomicity (the model's step granularity)"]
